@@ -4,10 +4,12 @@ import common
 from common import quiet
 
 PROP = 'C07'
-LEAN_MODULES = ['XyzProofs.Props.C07']
+LEAN_MODULES = ['XyzProofs.Props.C07', 'XyzProofs.Refine.Batch']
 THEOREMS = ['Batch.c07_partition', 'Batch.c07_nonempty', 'Batch.c07_batchsize', 'Batch.c07_num_batches',
-            'Batch.c07_reported_count', 'Batch.sumSizes_eq']
-ANCHORS = ['nbFromBs', 'capNb', 'bsOfNb', 'remOfNb', 'bothOk', 'sowerGetsExtra', 'sowerFlush']
+            'Batch.c07_reported_count', 'Batch.sumSizes_eq',
+            'Refine.chooseBatch_refines', 'Refine.sowerCall_refines', 'Refine.sowerExit_refines', 'Refine.sower_refines']
+ANCHORS = ['nbFromBs', 'capNb', 'bsOfNb', 'remOfNb', 'bothOk', 'sowerGetsExtra', 'sowerFlush',
+           'chooseBatchSettings', 'sowerInit', 'sowerCall', 'sowerExit']
 RULE = ("each case = (N settings as a grid or a case list, batchsize s in 1..N+1 or num_batches k in 1..N+2 or neither, "
         "shuffle off/seed, optional Runner constants/resources): the real Crop is sown, its batch files unpickled and "
         "compared with the Lean Sower model and with the call log of a direct run; quick enumerates all (N, s|k) for "
